@@ -55,6 +55,19 @@ Theorem accesslist_exact : forall ps internal src,
 Proof. exact acl_exact. Qed.
 Print Assumptions accesslist_exact.
 
+(* the configured list: empty = open default; a list whose entries all fail to parse denies all *)
+Theorem accesslist_config_exact : forall n_entries ps internal src,
+  Forall (fun p => prefix_ok p = true) ps -> (forall a, src = Some a -> addr_ok a) ->
+  acl_serve (new_set (acl_effective n_entries ps)) internal src =
+  if internal || match src with Some a => spec_contains (acl_effective n_entries ps) a | None => false end then AclNext else AclDrop.
+Proof. exact acl_config_exact. Qed.
+Print Assumptions accesslist_config_exact.
+
+Theorem unparsable_only_list_denies_all : forall n_entries src,
+  n_entries <> 0 -> acl_serve (new_set (acl_effective n_entries [])) false src = AclDrop.
+Proof. exact all_malformed_denies. Qed.
+Print Assumptions unparsable_only_list_denies_all.
+
 (* views: first matching view in declaration order, by the same containment rule *)
 Theorem first_match_view : forall views a i0,
   Forall (Forall (fun p => prefix_ok p = true)) views -> addr_ok a ->
